@@ -161,7 +161,15 @@ def run_shard(shard: Dict[str, Any], rep: Report) -> None:
     rng = shard_rng(seed, shard["id"])
     static_checks(runner, rep)
     mon = SpecMonitor(runner, rep)
-    pols = QUICK_POLICIES if tier == "quick" else THOROUGH_POLICIES
+    pols = list(QUICK_POLICIES if tier == "quick" else THOROUGH_POLICIES)
+    # environment-specific workloads from the model modules: drive to completion / to the extreme rows and columns
+    from jmon.modelapi import ModelCtx
+
+    P = ModelCtx(shard["env"], shard["cfg"], rep, env=runner.env, rng=rng)
+    extra = P.call("policies") if P.has("policies") else {}
+    for nm in ("frontier", "complete", "collide"):
+        if nm in extra:
+            pols.extend([extra[nm]] * (1 if tier == "quick" else 3))
     cap = step_cap(shard["env"], shard["cfg"], tier)
     for ep, pol in enumerate(pols):
         key, kint = key_for(seed, shard["id"], ep)
